@@ -132,6 +132,10 @@ def coherence_failures(t):
         want = [((D[n, :] if ax == 'observation' else D[:, n]).tolist(), i) for n, i in enumerate(ids)]
         if it != want:
             f.append('iter(%s) = %s, matrix says %s' % (ax, it, want))
+        nzc = np.asarray(t.nonzero_counts(ax, binary=True), dtype=float).ravel().tolist()
+        want = ((D != 0).sum(axis=1) if ax == 'observation' else (D != 0).sum(axis=0)).tolist()
+        if nzc != want:
+            f.append('nonzero_counts(%s) = %s, matrix says %s' % (ax, nzc, want))
         s = np.asarray(t.sum(ax), dtype=float).ravel().tolist()
         want = (D.sum(axis=1) if ax == 'observation' else D.sum(axis=0)).tolist()
         if not np.allclose(s, want, rtol=1e-12, atol=0, equal_nan=True):
@@ -312,20 +316,42 @@ def run_impl(c):
         return ['crash', type(e).__name__, traceback.format_exc()[-600:]]
 
 
+def _bystander_failures(bystanders):
+    """tables derived earlier (a table built from the current table's own matrix object, receivers left
+    behind by non-in-place operations, the auxiliary operands) must stay coherent and unchanged"""
+    f = []
+    for name, tbl, snap in bystanders:
+        coh = coherence_failures(tbl)
+        if coh:
+            f.append('%s became incoherent: %s' % (name, coh[0]))
+        elif canon(T.norm_snap(T.snapshot(tbl))) != snap:
+            f.append('%s changed although it was not operated on' % name)
+    return f[:2]
+
+
 def _run(c):
     t = T.build(c['start'])
     aux = [T.build(s) for s in c['aux']]
     out = [['start', T.norm_snap(T.snapshot(t)), coherence_failures(t)]]
     recs = []
+    bystanders = [('auxiliary table %d' % n, a, canon(T.norm_snap(T.snapshot(a)))) for n, a in enumerate(aux)]
     for step, op in enumerate(c['ops']):
         rec = {'step': step}
+        if step % 2 == 0 and len(bystanders) < 6:
+            # a second table over the very matrix object the current table exposes (a common idiom);
+            # the examination above left the table column-major, a row access (read-only) makes it
+            # row-major again, which is the layout in which a constructor might not copy
+            if step % 4 == 0 and t.shape[0] and t.shape[1]:
+                t.data(t.ids(axis='observation')[0], axis='observation')
+            sib = Table(t.matrix_data, t.ids(axis='observation'), t.ids())
+            bystanders.append(('table built from matrix_data before step %d' % step, sib, canon(T.norm_snap(T.snapshot(sib)))))
         before = T.norm_snap(T.snapshot(t))
         try:
             r = apply_op(t, op, aux, rec)
         except Exception as e:
             rec.setdefault('op', [99])
             after = T.norm_snap(T.snapshot(t))
-            entry = ['err', T.err_code(e), after, coherence_failures(t), canon(after) == canon(before)]
+            entry = ['err', T.err_code(e), after, coherence_failures(t) + _bystander_failures(bystanders), canon(after) == canon(before)]
             rec['after'] = after
             rec['err'] = True
             rec['code'] = T.err_code(e)
@@ -334,12 +360,14 @@ def _run(c):
             continue
         rcv = T.norm_snap(T.snapshot(t))
         rec['receiver_after'] = rcv
+        if r is not t and len(bystanders) < 8:
+            bystanders.append(('receiver of step %d %s' % (step, op[0]), t, canon(rcv)))
         t = r
         after = T.norm_snap(T.snapshot(t))
         rec['after'] = after
         rec['err'] = False
         recs.append(rec)
-        out.append(['ok', after, coherence_failures(t)])
+        out.append(['ok', after, coherence_failures(t) + _bystander_failures(bystanders)])
     _STASH[jhash(c)] = recs
     return out
 
